@@ -1,52 +1,6 @@
 # C01 - App data flows only after an authenticated, completed handshake
-def DEC12_UNWIND(n, dtls=1):
-    """loop bounds of matrixSslDecodeTls12AndBelow for an n-byte input buffer,
-    derived from the code: DTLS records are >= 14 bytes, the Lucky-13 dummy
-    loops run 256 times, the pad loop at most rec.len <= n times, the SHA
-    blinding loops at most (13+n)/64+1 times"""
-    # DTLS: each consumed record is >= 14 bytes; in a TLS session the three
-    # decodeMore back-edges are unreachable (bound 1 = "never taken", proved by
-    # the unwinding assertion)
-    recs = (n // 14 + 1) if dtls else 1
-    sha = (13 + n) // 64 + 3
-    return {
-        "matrixSslDecodeTls12AndBelow.0": recs, "matrixSslDecodeTls12AndBelow.1": recs,
-        "matrixSslDecodeTls12AndBelow.9": recs,
-        "matrixSslDecodeTls12AndBelow.2": 257, "matrixSslDecodeTls12AndBelow.3": n + 1,
-        "matrixSslDecodeTls12AndBelow.4": 257, "matrixSslDecodeTls12AndBelow.5": 257,
-        "matrixSslDecodeTls12AndBelow.6": sha, "matrixSslDecodeTls12AndBelow.7": sha,
-        "matrixSslDecodeTls12AndBelow.8": sha,
-        "addCompressCount.0": sha, "addCompressCount.1": sha, "addCompressCount.2": sha,
-        "addCompressCount.3": sha, "vf_decrypt.0": n + 1,
-    }
-
-
-def DEC12_CASES(n_tls, n_dtls, tier="quick"):
-    """activeVersion is enumerated (concrete) so that symbolic execution does
-    not fork on TLS-vs-DTLS; everything else stays symbolic"""
-    out = []
-    vers = [("undef", "v_undefined", 0), ("tls11", "v_tls_1_1", 0), ("tls11n", "(v_tls_1_1|v_tls_negotiated)", 0),
-            ("tls12", "v_tls_1_2", 0), ("tls12n", "(v_tls_1_2|v_tls_negotiated)", 0),
-            ("dtls10", "v_dtls_1_0", 1), ("dtls10n", "(v_dtls_1_0|v_tls_negotiated)", 1),
-            ("dtls12", "v_dtls_1_2", 1), ("dtls12n", "(v_dtls_1_2|v_tls_negotiated)", 1)]
-    for nm, v, d in vers:
-        n = n_dtls if d else n_tls
-        out.append(dict(name="%s_n%d" % (nm, n), tier=tier,
-                        defs={"VF_N": n, "VF_DTLS": d, "VF_VER": '"%s"' % v if False else v},
-                        unwindset=DEC12_UNWIND(n, d)))
-    return out
-
-
-DEC12 = dict(
-    name="dec12_gate", dir="common", src="dec12_harness.c",
-    renames={"matrixssl/sslDecode.c": ["parseSSLHandshake"]},
-    units=["matrixssl/dtls.c", "matrixssl/hsNegotiateVersion.c"],
-    defs={"VF_GROUP_C01": None},
-    functions=["matrixSslDecodeTls12AndBelow", "handleRecordHdr", "validateRecordHdrType",
-               "validateRecordHdrVersion", "validateRecordHdrLen", "addCompressCount",
-               "dtlsChkReplayWindow", "dtlsCompareEpoch", "psVerFromEncodingMajMin"],
-    sources=["matrixssl/sslDecode.c", "matrixssl/dtls.c", "matrixssl/hsNegotiateVersion.c"],
-    cases=DEC12_CASES(64, 27) + DEC12_CASES(96, 40, tier="thorough"),
-)
-HARNESSES = [DEC12]
+HARNESSES = [
+    COMMON["dec12"]("dec12_gate", ["C01"], COMMON["dec12_cases"](64, 40, dtls_only=("dtls10", "dtls12n")) + COMMON["dec12_cases"](96, 56, tier="thorough")),
+    COMMON["dec13"]("dec13_gate", ["C01"], ns=((48, "quick"), (96, "thorough"))),
+]
 PROPERTY = dict(level="model_checking", explanation="", bounds="", outside="", assumptions=[])
